@@ -16,7 +16,7 @@ RULE = ("Hypothesis-generated Sim descriptions: a testbench with exactly one sca
         "Lib, Meas (analysis object or type name), Literal, Save in each documented target form (mode, signal, list of signals, name, "
         "list of names), Options with bool / number / string / literal values; numeric fields in every Scalar form (int, float, "
         "Decimal, numeric string, Prefixed with any prefix, incl. 1..40-digit mantissas and long decimals placed 1e-29..1e-45 relative beside the midpoint of two adjacent doubles). Each Sim is built by constructor list, by @sim class body and through the "
-        "add-methods, and exported alone and in lists of 1-3 Sims sharing or not sharing testbenches. Oracle: reference encoder - top "
+        "add-methods (1 in 4 of those exported once before their last attributes are added), and exported alone and in lists of 1-3 Sims sharing or not sharing testbenches. Oracle: reference encoder - top "
         "names the testbench, present exactly once in the package; one entry per attribute in order with the expected kind, names, "
         "expressions, paths, sections, sweep kind and values (float nearest the exact value), inner analyses preserved, unnamed "
         "analyses pairwise distinct; all three construction styles export equal SimInputs; invalid testbenches raise. Non-trivial = Sim "
@@ -398,7 +398,10 @@ def build_sim(ctx, case_sim, style):
         return hs.Sim(tb=ctx.tb, attrs=[ctx.attr(a, name_override=(k if a["t"] not in ("save", "literal") else None)) for a, k in zip(attrs, keys)])
     if style == "methods":
         s = hs.Sim(tb=ctx.tb)
-        for a in attrs:
+        grow = case_sim.get("grow", 0) if ctx.tbspec.get("kind") == "ok" else 0
+        for k, a in enumerate(attrs):
+            if grow and k == len(attrs) - grow:
+                hs.to_proto(s)  # history: the Sim was exported once before its last `grow` attributes were added
             s.add(ctx.attr(a))
         return s
     if style == "class":
@@ -474,6 +477,8 @@ def batch_run(cases):
         nt = False
         for s in c["sims"]:
             feats.add("tb_" + s["tb"]["kind"])
+            if s.get("grow"):
+                feats.add("exported_before_last_attributes_added")
             for a in s["attrs"]:
                 feats.add("attr_" + a["t"])
                 if a["t"] in ("sweep", "monte"):
@@ -564,7 +569,10 @@ def strategies():
     def sim_desc(draw, tbname, tbkind):
         attrs = draw(st.lists(attr, min_size=0, max_size=8))
         keys = ["k%d_%s" % (i, a["t"]) for i, a in enumerate(attrs)]
-        return {"tb": {"name": tbname, "kind": tbkind}, "attrs": attrs, "keys": keys}
+        d_ = {"tb": {"name": tbname, "kind": tbkind}, "attrs": attrs, "keys": keys}
+        if len(attrs) >= 2 and draw(st.integers(0, 3)) == 0:
+            d_["grow"] = draw(st.integers(1, len(attrs) - 1))  # add-method style: exported once before the last `grow` attributes are added
+        return d_
 
     @st.composite
     def cases(draw):
